@@ -17,6 +17,15 @@ flag are compared (inside Coq) with the model, and `guaranteed => measured`
 Oracle / searcher (test): the property on the implementation itself - measured
 isometry defects against the implementation's own record and flags after every
 operation; canonical-form consumers against the dense state at 1e-8.
+
+Cooperating holders (coq/C08/World.v + World / world_stream below): circuits of
+the CircuitMPS family related by .copy() / Circuit(psi0=other's state) each own
+their tensors AND their record dict.  Theorem: over all interleavings no two
+holders thread the same dict and every holder's record stays true of its own
+tensors.  Tie (exact): after every operation on any holder, the identity classes
+of the record dicts and every holder's record and flags equal the world model's.
+Oracle (test): every holder's record against its own tensors, its state against
+its own gate history on a dense vector, fidelity_estimate against its norm.
 """
 
 import json
@@ -41,8 +50,13 @@ RULE = (
     "1/2/3/8/'all', multiply_each_, psi *= c, psi /= c, psi[i] *= c, psi[i] /= c, normalize; real, negative, complex and modulus-1 "
     "factors) - inside the recorded range, or outside it followed by a fresh record ('calc' / None / {}) and an immediate "
     "canonical query; magnetization in directions X, Y, Z, +, -. Circuit layer: CircuitMPS gate sequences with non-unitary raw "
-    "one-qubit gates, record + fidelity_estimate / error_estimate after every gate. Non-trivial: the operation moved the "
-    "centre or changed a tensor's status."
+    "one-qubit gates, record + fidelity_estimate / error_estimate after every gate. Families of cooperating circuits "
+    "(CircuitMPS, CircuitPermMPS; CircuitMPSLazy oracle-only): a circuit started from a random MPS (or |0..0>), 2-4 holders made by "
+    ".copy() and by Circuit(psi0=another holder's state) at random points of the history, operations (one- and two-qubit gates in "
+    "logical qubits, non-unitary raw gates, SWAP, local_expectation, local_expectation(dtype=) on a converted copy, to_dense / "
+    "get_psi, exact and with max_bond 2-3) on a randomly chosen holder, ALL holders observed after every operation; directed "
+    "two-holder scripts (centre at one end, copy / fork, move one holder's centre by gates / query / non-unitary gate, query the "
+    "other; both orders). Non-trivial: the operation moved the centre or changed a tensor's status."
 )
 
 # --------------------------------------------------------------------------- observation
@@ -1617,7 +1631,7 @@ def world_stream(ctx):
             ctx.bump("world_directed:" + cls)
             if W.wsteps:
                 PENDING.append((700000 + n, W.coq_case(), "world_directed", W))
-    for h in range(1, ctx.n(36, 300) + 1):
+    for h in range(1, ctx.n(60, 400) + 1):
         cls = WORLD_CLASSES[h % len(WORLD_CLASSES)]
         wspec = world_spec(rng, cls, entangled=rng.random() < 0.7)
         ctx.bump("world:" + cls + (":truncating" if wspec["max_bond"] else ""))
@@ -1727,7 +1741,7 @@ def run_lazy_world(ctx, lspec, ops=None, nops=14):
 
 def lazy_world_stream(ctx):
     rng = ctx.rng
-    for it in range(ctx.n(16, 120)):
+    for it in range(ctx.n(30, 200)):
         lspec = {"N": rng.randint(3, 6), "compress_every": rng.choice([1, 2, 3]), "method": rng.choice(["dm", "direct", "zipup"]), "warmup": rng.randint(2, 8)}
         ctx.bump("lazy_world:" + lspec["method"])
         run_lazy_world(ctx, lspec, nops=rng.randint(8, 20))
@@ -2018,6 +2032,11 @@ def setup(ctx):
         "the record theorem is about the model; the implementation is tied to it by the exact correspondence on the sampled histories",
         "numerics (QR, SVD, contraction) enter only through the primitive effects listed in the trusted base",
         "cyclic MPS, bra= arguments and non-'direct' sub-MPO compression methods are not modelled (the latter are covered by the oracle stream)",
+        "world model (C08/World.v): a holder = tensor statuses + the address of the record dict it threads; Circuit.copy() and Circuit(psi0=...) "
+        "allocate a new dict. The implementation's dict identities (id of gate_opts['info']) are compared with the model's addresses after every "
+        "operation. CircuitPermMPS is modelled through the physical sites its own `qubits` list names; that list (and every holder's tensors) is "
+        "checked only by the dense-reference test. CircuitMPSLazy's pending gate layers are not modelled: oracle-only stream, holders checked "
+        "whenever nothing is pending",
     ]
     ctx.check_props(["Base/Sums.vo", "C08/Model.vo", "C08/Proofs.vo", "C08/Region.vo", "C08/Historic.vo", "C08/World.vo", "C08/Props.v"])
 
